@@ -54,14 +54,16 @@ pub struct Cfg {
     pub max_len: u64,
     /// only zones whose short name resolves back to the same zone
     pub unambiguous_zones: bool,
+    /// allow a row without its cell in a single-column grid (known finding Z4)
+    pub single_col_missing: bool,
 }
 
 impl Cfg {
     pub fn wf(depth: u32) -> Cfg {
-        Cfg { wf: true, allow_nan: true, allow_inf: true, max_depth: depth, max_len: 4, unambiguous_zones: true }
+        Cfg { wf: true, allow_nan: true, allow_inf: true, max_depth: depth, max_len: 4, unambiguous_zones: true, single_col_missing: false }
     }
     pub fn any(depth: u32) -> Cfg {
-        Cfg { wf: false, allow_nan: true, allow_inf: true, max_depth: depth, max_len: 4, unambiguous_zones: false }
+        Cfg { wf: false, allow_nan: true, allow_inf: true, max_depth: depth, max_len: 4, unambiguous_zones: false, single_col_missing: true }
     }
 }
 
@@ -156,6 +158,10 @@ pub fn xstr_type(rng: &mut Rng) -> String {
     let n = rng.below(5);
     for _ in 0..n {
         s.push(pick_char(rng, "abcXYZ019_"));
+    }
+    if s == "C" {
+        // `C(` is the Coord literal: the grammar reserves this one type name
+        s.push('x');
     }
     s
 }
@@ -385,8 +391,8 @@ pub fn grid(rng: &mut Rng, cfg: &Cfg, depth: u32) -> Grid {
         let mut r = Dict::new();
         for n in &names {
             match rng.below(5) {
-                0 => {}
-                1 => {
+                0 if names.len() > 1 || cfg.single_col_missing => {}
+                0 | 1 => {
                     r.insert(n.clone(), Value::Null);
                 }
                 _ => {
